@@ -368,6 +368,15 @@ fn gen_san_case(cur: &mut Cursor) -> Value {
             _ => alphabet_string(cur, MOVE_ALPHABET, 8),
         })
         .collect();
+    let mut texts = texts;
+    if p.ep.is_some() {
+        // every two-file pawn-capture text, so that the abbreviated resolver sees all file pairs incl. the edges
+        for f1 in 0..8u8 {
+            for f2 in 0..8u8 {
+                texts.push(format!("{}{}", (b'a' + f1) as char, (b'a' + f2) as char));
+            }
+        }
+    }
     json!({"fen": p.fen(), "src": src, "texts": texts})
 }
 
